@@ -291,6 +291,10 @@ SEED_PEERS = {
     'strict-cbc-dups': {'kex': ['curve25519-sha256', 'kex-strict-s-v00@openssh.com'], 'key': ['ssh-ed25519', 'ssh-rsa'],
                         'enc': ['chacha20-poly1305@openssh.com', 'aes128-cbc', 'aes128-cbc', '3des-cbc', 'aes128-ctr'],
                         'mac': ['hmac-sha1-etm@openssh.com', 'umac-64-etm@openssh.com', 'hmac-sha2-256-etm@openssh.com', 'hmac-sha1-etm@openssh.com']},
+    # two mechanisms of the same GSS key-exchange families: one table row stands for several advertised names (the recommendation pass groups them)
+    'gss-two-mechanisms': {'kex': ['gss-group1-sha1-toWM5Slw5Ew8Mqkay+al2g==', 'gss-gex-sha1-toWM5Slw5Ew8Mqkay+al2g==', 'gss-group1-sha1-eipGX3TCiQSrx573bT1o1Q==',
+                                   'gss-gex-sha1-eipGX3TCiQSrx573bT1o1Q==', 'gss-group1-sha1-aaaaaaaaaaaaaaaaaaaaaa==', 'curve25519-sha256'],
+                           'key': ['ssh-ed25519'], 'enc': ['aes128-ctr'], 'mac': ['hmac-sha2-256']},
     'weak-unknowns': {'kex': ['diffie-hellman-group1-sha1', 'zz-unknown-b', 'curve25519-sha256', 'zz-unknown-a'], 'key': ['ssh-dss', 'ssh-ed25519', 'zz-unknown-a'],
                       'enc': ['3des-cbc', 'arcfour', 'zz-unknown-c', 'aes128-ctr'], 'mac': ['hmac-md5', 'hmac-sha2-256', 'hmac-md5']},
 }
